@@ -50,7 +50,7 @@ def generate(prop, seed, idx, tier="quick"):
                     "base": "train",
                     "rows": sorted(cfg.sample(range(n), min(n, cfg.randint(1, 20)))),
                     "index": cfg.choice(["keep", "offset", "str"]),
-                    "inject": [[cfg.randrange(1 << 20), cfg.randrange(len(names)), cfg.choice(["out_of_range", "unseen_category"]), cfg.choice(["below", "above"])]],
+                    "inject": [[cfg.randrange(1 << 20), cfg.randrange(len(names)), cfg.choice(["out_of_range", "unseen_category", "borrowed_category", "borrowed_category"]), cfg.choice(["below", "above"])]],
                     "extra_cols": False,
                     "col_perm": cfg.randrange(1 << 30),
                 },
@@ -66,7 +66,7 @@ def generate(prop, seed, idx, tier="quick"):
         "tier": tier,
         "world": world,
         "subset": subset,
-        "n_jobs_b": cfg.choice([2, 2, 3, 4]),
+        "n_jobs_b": cfg.choice([1, 2, 2, 3, 4]),
         "ops": ops,
         "sched": {"mode": "prng"},
     }
@@ -80,7 +80,7 @@ def _fix_inject(recipe, world):
     for pos, j, kind, payload in recipe.get("inject", []):
         feat = world["features"][j % len(world["features"])]
         if feat["kind"] == "quant":
-            if kind == "unseen_category":
+            if kind in ("unseen_category", "borrowed_category"):
                 kind, payload = "out_of_range", "above"
             if kind == "out_of_range" and payload not in ("below", "above", "between", "zero", "neg_zero", "inf", "neg_inf"):
                 payload = "above"
@@ -224,7 +224,7 @@ def execute(spec):
                             {"exception": type(out_b[1]).__name__},
                         )
                     if out_b[0] == "reject":
-                        stats.probe("rejection_came_back_from_worker" if spec["n_jobs_b"] > 1 else "rejection")
+                        stats.probe("rejection_came_back_from_worker" if spec["n_jobs_b"] > 1 else "rejection_same_class")
                     continue
                 if out_b[0] != "ok":
                     raise _Fail(
